@@ -535,6 +535,52 @@ impl Range {
     }
 }
 
+#[cfg(feature = "verif-hooks")]
+#[doc(hidden)]
+/// One side of an interval as seen by the verification harness:
+/// `None` = unbounded, `Some((inclusive, version))`.
+pub type VerifSide = Option<(bool, Version)>;
+
+#[cfg(feature = "verif-hooks")]
+#[doc(hidden)]
+impl Range {
+    /// (lower, upper) per alternative, in the order the range stores them.
+    pub fn verif_bounds(&self) -> Vec<(VerifSide, VerifSide)> {
+        fn side(b: &Bound) -> VerifSide {
+            match b {
+                Bound::Lower(Predicate::Including(v)) | Bound::Upper(Predicate::Including(v)) => {
+                    Some((true, v.clone()))
+                }
+                Bound::Lower(Predicate::Excluding(v)) | Bound::Upper(Predicate::Excluding(v)) => {
+                    Some((false, v.clone()))
+                }
+                _ => None,
+            }
+        }
+        self.0
+            .iter()
+            .map(|bs| (side(&bs.lower), side(&bs.upper)))
+            .collect()
+    }
+
+    /// Build a range from such a list through `BoundSet::new`
+    /// (`None` if the list is empty or any pair is rejected as empty).
+    pub fn verif_from_bounds(bounds: &[(VerifSide, VerifSide)]) -> Option<Self> {
+        fn pred(s: &VerifSide) -> Predicate {
+            match s {
+                None => Predicate::Unbounded,
+                Some((true, v)) => Predicate::Including(v.clone()),
+                Some((false, v)) => Predicate::Excluding(v.clone()),
+            }
+        }
+        let sets: Option<Vec<BoundSet>> = bounds
+            .iter()
+            .map(|(lo, up)| BoundSet::new(Bound::Lower(pred(lo)), Bound::Upper(pred(up))))
+            .collect();
+        sets.filter(|s| !s.is_empty()).map(Range)
+    }
+}
+
 impl fmt::Display for Range {
     fn fmt(&self, f: &mut fmt::Formatter<'_>) -> fmt::Result {
         for (i, range) in self.0.iter().enumerate() {
